@@ -24,7 +24,7 @@ SPEC = {
              "names) are concatenations of 1-3 pieces from the classes quotes, backslashes, newlines/CR/tab, unicode (incl. U+2028, "
              "U+0085, BOM, astral), `%{` / unterminated `${` / `$${`, YAML-special scalars (yes, null, ~, 1e3, 0x1F, `- a`, `#c`, "
              "`a: b`, `<<`, timestamps, base-60, leading/trailing blanks, empty), control characters, go-template text; all NFC, "
-             "never a complete ${...}. 35% of the bodies / payloads and 6% of the other free-text values are pasted text blocks: 1-5 "
+             "never a complete ${...} by themselves (config placeholders are written on purpose, see below). 35% of the bodies / payloads and 6% of the other free-text values are pasted text blocks: 1-5 "
              "lines from a pool of TSV rows (also with an empty first column), tab- / space-indented JSON, XML, YAML and Makefile "
              "text, lines with `#`, `: `, `- `, trailing blanks or tabs, empty lines; LF (8%: CR LF) line ends; no, one or 2-3 "
              "trailing newlines. The description is rendered to x.hcl with hclwrite (block types in a drawn order; bodies / "
@@ -71,6 +71,23 @@ SPEC = {
              "the `<<`. The plan never changes the meaning: the anchored file is kept only when yaml.v2's own Unmarshal reads it exactly as the Marshal form "
              "plus the `locals` key (else yaml_anchor_fallback); x.hcl is untouched. The oracle is that of every case; the `locals` block must be read as "
              "written (merges resolved) and is then put aside (HCL locals do not show in the configuration either). "
+             "14% of the descriptions of TestEquivalence / TestLocals (and the fuzz targets) that carry no long line hold CONFIG PLACEHOLDERS "
+             "(c16/placeholders_test.go; docs/eng/config.md `Variables from env and files`; the resolvers are registered as core/import does at start-up): 1-3 "
+             "variables - `${env:NAME}` 45%, the bare form `${NAME}` 20%, `${property:<dir>/<file>#key}` 35% (a real file with other lines around the key), 15% "
+             "written with a blank after the colon - holding a drawn value (tokens, host:port, numbers, true, the empty string, quotes, backslashes, YAML-special "
+             "text such as `a: b`, `- x`, `#c`, yes, null, ~, leading / trailing blanks, cyrillic / CJK, JSON, go-template text, `%{`, `$$`, lone braces, two lines "
+             "(environment only); never a `${`), written into 1-4 string VALUES of the description: a request body / call payload with 55% (when there is one), "
+             "else any of uri, tag, header / metadata value, preprocessor / postprocessor mapping value, assert headers value, assert body / payload item, string "
+             "value of a `variables` source (not: names, keys, method / call / file / fields / delimiter, attributes written as HCL-only expressions); the placeholder is "
+             "the whole value 25%, in front 15%, at the end 25%, at a drawn rune position 35%; a second placeholder of one value goes to an end. With few variables and "
+             "several sites one variable often stands in a body AND in a header / uri / mapping of the same file. x.hcl holds the text as hclwrite escapes it "
+             "(`$${...}`, also inside heredocs), x.yaml as any other string (Marshal form or a hand-written scalar). Oracle: the unchanged one, against the description "
+             "with the values filled in by the harness's own reading of the format (both files are read as that configuration, field by field, and deliver the same ammo). "
+             "7% of these recipes leave one variable undefined (environment variable unset / no such key in the property file): then both files must be rejected. "
+             "Where a filled-in value forms a NEW complete placeholder with the text around it (a value ending in `$` in front of `{x}`, a `}` closing a `${ x` of the "
+             "host string; class ph_filled_in_text_forms_new_placeholder) nothing says whether it is looked at again (measured, not asserted: a request body is, a uri is "
+             "not, in both syntaxes alike): such a description must only be read the same way in both syntaxes or be rejected in both. "
+             "The case stores the recipe (Case.Ph), the path of the property files is per process. "
              "TestConcurrentLoads: 3-6 different descriptions (30% with locals), each in both syntaxes in its own directory, are first "
              "read alone (reference, checked like a TestEquivalence case incl. delivered ammo) and then loaded 4 (thorough 12) times each by 12-24 "
              "goroutines released together in a process with GOMAXPROCS=4 (3-6 loaders per processor, so that loaders are descheduled "
@@ -143,6 +160,20 @@ SPEC = {
         "TestEquivalence/yaml_merge_list_with_common_key": 0.012, "TestEquivalence/yaml_alias_of_whole_map": 0.015,
         "TestEquivalence/yaml_merge_key_after_explicit_keys": 0.02,
         "TestLocals/yaml_anchors": 0.16, "TestLocals/yaml_merge_key": 0.12, "TestLocals/yaml_merge_override": 0.05, "TestLocals/yaml_merge_list": 0.012,
+        # classes added after seeded defect C16/m14 (config placeholders in the string values of a description)
+        "TestEquivalence/placeholders": 0.06, "TestEquivalence/ph_in_body_or_payload": 0.045, "TestEquivalence/ph_in_body": 0.022,
+        "TestEquivalence/ph_in_payload": 0.02, "TestEquivalence/ph_outside_body_and_payload": 0.04, "TestEquivalence/ph_in_uri": 0.008,
+        "TestEquivalence/ph_in_header_value": 0.006, "TestEquivalence/ph_in_metadata_value": 0.003, "TestEquivalence/ph_in_tag": 0.006,
+        "TestEquivalence/ph_in_mapping_value": 0.016, "TestEquivalence/ph_in_assert_item": 0.007, "TestEquivalence/ph_in_variables_value": 0.0008,
+        "TestEquivalence/ph_src_env": 0.033, "TestEquivalence/ph_src_bare": 0.012, "TestEquivalence/ph_src_property": 0.029,
+        "TestEquivalence/ph_whole_value": 0.023, "TestEquivalence/ph_embedded": 0.055, "TestEquivalence/ph_several_in_one_value": 0.023,
+        "TestEquivalence/ph_one_variable_in_several_values": 0.03, "TestEquivalence/ph_one_variable_in_body_and_elsewhere": 0.018,
+        "TestEquivalence/ph_in_hcl_heredoc": 0.004, "TestEquivalence/ph_in_yaml_block_scalar": 0.02, "TestEquivalence/ph_blank_after_colon": 0.009,
+        "TestEquivalence/ph_value_special": 0.04, "TestEquivalence/ph_value_empty": 0.0008, "TestEquivalence/ph_value_several_lines": 0.0008,
+        "TestEquivalence/ph_names_nothing_both_must_reject": 0.0024,
+        "TestLocals/placeholders": 0.055, "TestLocals/ph_in_body_or_payload": 0.033, "TestLocals/ph_outside_body_and_payload": 0.039,
+        "TestLocals/ph_src_property": 0.028, "TestLocals/ph_one_variable_in_body_and_elsewhere": 0.014,
+        "TestLocals/ph_names_nothing_both_must_reject": 0.001,
         "TestConcurrentLoads/conc_all_descriptions_differ": 0.6, "TestConcurrentLoads/conc_http_and_grpc": 0.4,
         "TestConcurrentLoads/conc_hcl_over_2k": 0.3, "TestConcurrentLoads/conc_loaders_5_per_processor_or_more": 0.2,
         "TestConcurrentLoads/conc_40_hcl_loads_or_more": 0.4, "TestConcurrentLoads/conc_12_provider_builds_or_more": 0.6,
@@ -164,7 +195,7 @@ SPEC = {
                  "be equal under a normalising comparison (nil = empty map/slice, pointers by value, exported fields only, dynamic "
                  "types of processors / templaters / sources kept); each of the two results must also equal the configuration the description "
                  "states field by field (nothing lost or altered by the struct -> YAML text -> map -> decoder hop, nor by the way the "
-                 "file is read: body / payload text incl. its final line breaks); and the real "
+                 "file is read: body / payload text incl. its final line breaks; config placeholders filled in, in a body or payload as in a uri or header); and the real "
                  "http/scenario / grpc/scenario providers built through config decoding from the two files must deliver, over one "
                  "full weight cycle plus one item, ammo that is identical as the guns see it (id, scenario name, min waiting time, "
                  "every step with all request / call fields, processors, templater type, sleeps, variable storage via Variables()). "
@@ -194,7 +225,7 @@ SPEC = {
         "the interleavings of TestConcurrentLoads are those the Go scheduler produces with 3-6 busy loaders per processor (GOMAXPROCS=4); the race detector (thorough) reports unsynchronised sharing also where no visible difference resulted",
         "all cases of a process rewrite the same file names: a front-end may not remember anything by file name",
         "strings are NFC-normalised: HCL normalises string values to NFC by specification, so other strings are not expressible in both syntaxes",
-        "complete ${...} sequences are not generated (placeholder language of the config layer, property C17)",
+        "a scenario description is read through the config decoder, so ${env:NAME} / ${NAME} / ${property:file#key} in any of its string values is replaced by the variable's value and a placeholder that names nothing makes the file unreadable (docs/eng/config.md; what C17 TestScenarioPlaceholders establishes for the YAML form) - in both syntaxes alike, HCL writing the text as $${...}; the placeholder language itself (spelling of names, casts to numbers / booleans) is property C17: C16 writes plain names, string fields and values without `${`, and no other complete ${...} sequence is generated",
         "the documented semantics of the HCL functions are those of the pages docs/eng/scenario/functions.md links to",
         "hclwrite's quoted-string escaping and yaml.v2's Marshal are the trusted base of the two renderers (the key `<<`, which yaml.v2 writes unquoted, is quoted by the harness)",
         "a YAML file with anchors, aliases and merge keys means what yaml.v2's Unmarshal reads from it (explicit key over merged key when written after the `<<`, earlier anchor of a merge list over later): it is only written when the whole file then decodes exactly as the Marshal form does, plus the `locals` helper block, which docs/eng/scenario/locals.md offers for common values and which is not part of the description",
